@@ -127,7 +127,7 @@ Definition row_level (level : list nat) (i : nat) (cs : list nat) : nat :=
 Definition compute_levels (deps : nat -> list nat) (order : list nat) (n : nat) : list nat :=
   fold_left (fun level i => updn level i (row_level level i (deps i))) order (repeat 0 n).
 (* the level loop of gauss_seidel::parallel_sweep after the anti-dependency fix
-   (/repo f214b60): after level[i] = l, every column c of the row that is swept LATER
+   (/repo dff00c6): after level[i] = l, every column c of the row that is swept LATER
    gets level[c] = max(level[c], l+1) -- the row that writes x[c] has to wait for the
    row that still reads the old x[c].  A column outside the array is a no-op here (out
    of bounds in the C++; excluded for square matrices). *)
